@@ -8,7 +8,7 @@
    are not modelled; for them the same property is explored by the harness on the real binary (level: proof for
    simplify, partial: formatter explored). *)
 From Coq Require Import String.
-From PlzV Require Import Base.Harness Gen.C38Fmt Model.C38 Proof.C38.
+From PlzV Require Import Base.Harness Gen.C38Fmt Model.C38 Proof.C38 Proof.C38Expr Proof.C38Str.
 Local Open Scope list_scope.
 
 (* "Reformatting a file that Please accepts yields a file that Please still accepts and that evaluates to the same values
@@ -21,7 +21,15 @@ Definition C38_statement : Prop :=
          (nonlit_val : N -> state -> option (list str)) (other : N -> state -> option state),
     (forall p st, eval state inc fstr_val nonlit_val other (simplify_loop p) st = eval state inc fstr_val nonlit_val other p st)
     /\ (forall p, simplify_loop (simplify_loop p) = simplify_loop p)
-    /\ (forall p, flatten (simplify_loop p) = flatten p).
+    /\ (forall p, flatten (simplify_loop p) = flatten p)
+    (* operator chains with unary operators (Model/C38Expr.v): the formatted chain evaluates to the same integer *)
+    /\ (forall c, zeval (fmt_chain c) = zeval c)
+    (* plain string literals over the modelled alphabet (Model/C38Str.v): the literal the formatter prints is one
+       token from which the asp lexer reads the value it read from the original *)
+    /\ (forall q ml its, (q = 34 \/ q = 39)%N -> forallb (item_ok ml) its = true -> forallb (lexable q ml) its = true ->
+         exists tok v, bt_print q ml (render its) = Some tok
+                       /\ lex_string (delim q ml ++ render its ++ delim q ml) = Some (v, [])
+                       /\ lex_string tok = Some (v, [])).
 
 (* The code refutes it: `subinclude("//defs:d1")` followed by `subinclude(f"//{PKG}:d2")` is accepted when d1 defines PKG;
    simplify merges the two calls (buildtools parses an f-string as a StringExpr), the f-string is then interpolated before
@@ -31,6 +39,17 @@ Proof.
   exact (fun H => witness_refutes (proj1 (H bool w_inc w_fstr w_nonlit w_other))).
 Qed.
 Print Assumptions C38_refuted.
+
+(* The two other conjuncts are refuted as well (both reproduced on the real binary by the harness):
+   2 * -(3) + 1 is -4 in asp (the Negate of the right operand is hoisted behind `*` and applies to (3) + 1), the formatter
+   prints 2 * -3 + 1, where -3 is one token: -5;  'x\<newline>y' keeps backslash and newline in asp, the re-quoted
+   literal is "xy". *)
+Example C38_refuted_by_chain : zeval (fmt_chain w_chain) <> zeval w_chain.
+Proof. vm_compute. discriminate. Qed.
+Example C38_refuted_by_string :
+  forallb (item_ok false) w_body = true /\ lex_string (delim 39 false ++ render w_body ++ delim 39 false) = Some ([120; 92; 10; 121]%N, [])
+  /\ bt_print 39 false (render w_body) = Some (s """xy""") /\ lex_string (s """xy""") = Some ([120; 121]%N, []).
+Proof. vm_compute. repeat split; reflexivity. Qed.
 
 (* What the code does guarantee, for all statement lists (no bound):
    - outside the one defect class (an f-string argument moved in front of an earlier include) evaluation is preserved,
@@ -54,6 +73,25 @@ Definition C38_partial_statement : Prop :=
   /\ (forall p, flatten (simplify_loop p) = flatten p)
   /\ (forall p, filter unmergeable (simplify_loop p) = filter unmergeable p)
   /\ (forall p, length (simplify_loop p) <= length p)
+  (* operator chains: outside the class "a minus kept apart from a literal AFTER a binary operator" the formatted chain
+     evaluates to the same value, for every value domain and every behaviour of the operators; this rests on Negate having
+     the highest level of the regenerated Operator.Precedence() table; formatting twice = once; a formatted chain is
+     never in the class *)
+  /\ (forall (V : Type) (lit : Z -> V) (var : N -> V) (neg lnot : V -> V) (bin : binop -> V -> V -> V) (truthy : V -> bool),
+        (forall z, neg (lit z) = lit (Z.opp z)) ->
+        forall c, expr_defect c = None ->
+                  C38Expr.eval V lit var neg lnot bin truthy (fmt_chain c) = C38Expr.eval V lit var neg lnot bin truthy c)
+  /\ (forall o, Z.leb (prec_name (binop_name o)) (prec_name (unop_name Negate)) = true)
+  /\ (forall c, fmt_chain (fmt_chain c) = fmt_chain c)
+  /\ (forall c, expr_defect (fmt_chain c) = None)
+  (* string literals: for every body over the modelled alphabet (any length) without a backslash-newline in a
+     single-line literal, the canonical form quote() prints for the Unquote value is one complete token from which the asp
+     lexer (escape rules regenerated from consumeString) reads the value it reads from the original literal *)
+  /\ (forall ml its, body_ok ml its = true ->
+        exists v, bt_unquote false (render its) = Some v
+                  /\ lex_string (delim 34 ml ++ bt_quote_body ml false v ++ delim 34 ml) = Some (flat_map (asp_item ml) its, []))
+  /\ (forall q ml its, N.eqb 92 q = false -> forallb (lexable q ml) its = true ->
+        consume q ml false (render its ++ delim q ml) = Some (flat_map (asp_item ml) its, []))
   /\ lex_class 92 = LexUnknown
   /\ unknown_bytes = [1; 2; 3; 4; 5; 6; 7; 8; 11; 12; 14; 15; 16; 17; 18; 19; 20; 21; 22; 23; 24; 25; 26; 27; 28; 29; 30; 31;
                       36; 59; 63; 64; 92; 94; 96; 126; 127]%N.
@@ -61,7 +99,9 @@ Definition C38_partial_statement : Prop :=
 Theorem C38_partial : C38_partial_statement.
 Proof.
   exact (conj loop_eval (conj no_fstr_no_defect (conj simplify_loop_eq (conj loop_idem (conj loop_normal (conj loop_normal_fix
-        (conj loop_flatten (conj loop_keeps_others (conj loop_length (conj backslash_unknown unknown_bytes_eq)))))))))).
+        (conj loop_flatten (conj loop_keeps_others (conj loop_length
+        (conj fmt_preserves_eval (conj negate_binds_tightest_bin (conj fmt_idempotent (conj fmt_never_defective
+        (conj requote_same_value (conj orig_same_value (conj backslash_unknown unknown_bytes_eq)))))))))))))))).
 Qed.
 Print Assumptions C38_partial.
 
@@ -91,4 +131,20 @@ Example C38_defect_inhabited :
   /\ eval bool w_inc w_fstr w_nonlit w_other w_prog false = Some true
   /\ eval bool w_inc w_fstr w_nonlit w_other (simplify_loop w_prog) false = None
   /\ eval _ ex_inc ex_fstr ex_nonlit ex_other w_prog [] <> eval _ ex_inc ex_fstr ex_nonlit ex_other (simplify_loop w_prog) [].
+Proof. vm_compute. repeat split; try reflexivity. discriminate. Qed.
+
+
+(* Non-vacuity of the chain and string parts: a chain outside the class on which the formatter really folds a separated
+   minus into the literal and drops nested parentheses; a triple-quoted body with a continuation, a non-standard escape
+   and a quote of the other kind that is re-quoted. *)
+Definition ex_chain : chain :=
+  CMore (Some (Negate, false)) (AParen (COne None (AParen (COne None (ALit 5))))) Subtract
+        (CMore None (AId 0) Modulo (COne None (AParen (COne (Some (Negate, false)) (ALit 4))))).
+Definition ex_body : list item := [P 97; P 32; E 10; P 98; E 36; P 39; E 110].
+Example C38_partial_nonvacuous_chain_string :
+  expr_defect ex_chain = None /\ fmt_chain ex_chain <> ex_chain
+  /\ C38Expr.render (fmt_chain ex_chain) = s "-5 - V0 % (-4)" /\ zeval ex_chain = (-8)%Z /\ zeval (fmt_chain ex_chain) = (-8)%Z
+  /\ body_ok true ex_body = true
+  /\ bt_print 39 true (render ex_body) = Some ([34; 34; 34; 97; 32; 98; 92; 92; 36; 39; 10; 34; 34; 34]%N)
+  /\ lex_string (delim 39 true ++ render ex_body ++ delim 39 true) = Some ([97; 32; 98; 92; 36; 39; 10]%N, []).
 Proof. vm_compute. repeat split; try reflexivity. discriminate. Qed.
